@@ -27,31 +27,125 @@ func validate(n node) error {
 	})
 }
 
+// isLeftRecursive reports whether "root" can re-enter itself before consuming a token.
+//
+// This follows the left edge of every alternative: through groups, captures, lookahead
+// groups, negations, unions and other productions, and past any leading sub-expressions
+// that can match without consuming input.
 func isLeftRecursive(root *strct) (found bool) {
-	defer func() { _ = recover() }()
+	nullable := nullableStructs(root)
 	seen := map[node]bool{}
-	_ = visit(root.expr, func(n node, next func() error) error {
-		if found {
-			return nil
+	var walk func(n node)
+	walk = func(n node) {
+		if found || n == nil {
+			return
 		}
 		switch n := n.(type) {
 		case *strct:
-			if root.typ == n.typ {
+			if n.typ == root.typ {
 				found = true
+				return
 			}
-
+			if seen[n] {
+				return
+			}
+			seen[n] = true
+			walk(n.expr)
+		case *disjunction:
+			for _, child := range n.nodes {
+				walk(child)
+			}
+		case *union:
+			for _, member := range n.disjunction.nodes {
+				walk(member)
+			}
 		case *sequence:
-			if !n.head {
-				panic("done")
+			for s := n; s != nil; s = s.next {
+				walk(s.node)
+				if !canMatchEmpty(s.node, nullable) {
+					break
+				}
 			}
+		case *group:
+			walk(n.expr)
+		case *capture:
+			walk(n.node)
+		case *negation:
+			walk(n.node)
+		case *lookaheadGroup:
+			walk(n.expr)
 		}
+	}
+	walk(root.expr)
+	return found
+}
+
+// nullableStructs computes, as a least fixpoint, which productions reachable from "root"
+// can match without consuming any input.
+func nullableStructs(root *strct) map[*strct]bool {
+	structs := []*strct{}
+	seen := map[node]bool{}
+	_ = visit(root, func(n node, next func() error) error {
 		if seen[n] {
 			return nil
 		}
 		seen[n] = true
+		if s, ok := n.(*strct); ok {
+			structs = append(structs, s)
+		}
 		return next()
 	})
-	return
+	nullable := map[*strct]bool{}
+	for changed := true; changed; {
+		changed = false
+		for _, s := range structs {
+			if !nullable[s] && s.expr != nil && canMatchEmpty(s.expr, nullable) {
+				nullable[s] = true
+				changed = true
+			}
+		}
+	}
+	return nullable
+}
+
+// canMatchEmpty reports whether "n" can match without consuming a token.
+func canMatchEmpty(n node, nullable map[*strct]bool) bool {
+	switch n := n.(type) {
+	case *strct:
+		return nullable[n]
+	case *disjunction:
+		for _, child := range n.nodes {
+			if canMatchEmpty(child, nullable) {
+				return true
+			}
+		}
+		return false
+	case *union:
+		for _, member := range n.disjunction.nodes {
+			if canMatchEmpty(member, nullable) {
+				return true
+			}
+		}
+		return false
+	case *sequence:
+		for s := n; s != nil; s = s.next {
+			if !canMatchEmpty(s.node, nullable) {
+				return false
+			}
+		}
+		return true
+	case *group:
+		if n.mode == groupMatchZeroOrOne || n.mode == groupMatchZeroOrMore {
+			return true
+		}
+		return canMatchEmpty(n.expr, nullable)
+	case *capture:
+		return canMatchEmpty(n.node, nullable)
+	case *lookaheadGroup:
+		return true
+	default: // literal, reference, negation, custom, parseable
+		return false
+	}
 }
 
 func indent(s string) string {
